@@ -884,7 +884,7 @@ def execute(plan: dict[str, Any]) -> dict[str, Any]:
         "digest": sched.events.hexdigest()[:32],
         "evals": 1,
         "nontrivial": [rng.digest(plan)] if nontrivial else [],
-        "probes": probes,
+        "probes": {**probes, **sched.probes},
         "faults_fired": fired,
         "faults_configured": configured,
         "interleaving": sched.interleaving.hexdigest()[:32],
